@@ -19,6 +19,8 @@ import (
 	"github.com/ClickHouse/ch-go/proto"
 )
 
+var errCallerCause = errors.New("caller: shutting down")
+
 func init() {
 	props["C04"] = runC04
 	props["C10"] = runC10
@@ -31,13 +33,14 @@ type fault struct {
 	Occ      int    `json:"occ"`                                // occurrence of that gate (1-based)
 	Block    bool   `json:"peer_stops_reading,omitempty"`       // from the moment of cancellation on the peer accepts no more bytes (writes block)
 	WFail    bool   `json:"cancel_write_fails,omitempty"`       // from the moment of cancellation on, every write on the connection fails
+	Cause    bool   `json:"custom_cause,omitempty"`             // the caller cancels with a cause of its own (context.WithCancelCause / WithTimeoutCause)
 	Far      bool   `json:"far_deadline,omitempty"`             // the caller's context also carries a deadline far beyond the read timeout
 	CloseErr bool   `json:"conn_close_reports_error,omitempty"` // net.Conn.Close tears the connection down but returns an error (e.g. TLS close_notify on a dead peer)
 	Sched    string `json:"sched"`                              // "" | recv-first (sender resumes after the receiver has handled the injected packet) | watch-first (the cancel-watch checks before the failing receiver has returned)
 }
 
 func (f fault) String() string {
-	return fmt.Sprintf("%s k=%d gate=%s#%d sched=%s far=%v wfail=%v block=%v closeerr=%v", f.Kind, f.K, f.Gate, f.Occ, f.Sched, f.Far, f.WFail, f.Block, f.CloseErr)
+	return fmt.Sprintf("%s k=%d gate=%s#%d sched=%s far=%v wfail=%v block=%v closeerr=%v cause=%v", f.Kind, f.K, f.Gate, f.Occ, f.Sched, f.Far, f.WFail, f.Block, f.CloseErr, f.Cause)
 }
 
 type scenSpec struct {
@@ -291,6 +294,13 @@ func runScenario(sp scenSpec, f fault, rt time.Duration) (*scenOutcome, error) {
 
 	// ---------------- gates: server reactions, fault injection, schedule
 	parent, cancelParent := context.WithCancel(context.Background())
+	if f.Cause {
+		// cancellation with a cause: ctx.Err() is still context.Canceled, context.Cause(ctx) is the caller's error
+		var cc context.CancelCauseFunc
+		cancelParent()
+		parent, cc = context.WithCancelCause(context.Background())
+		cancelParent = func() { cc(errCallerCause) }
+	}
 	defer cancelParent()
 	if f.Kind == "deadline" {
 		// deadline expiry instead of explicit cancellation: armed at the gate
@@ -402,7 +412,11 @@ func runScenario(sp scenSpec, f fault, rt time.Duration) (*scenOutcome, error) {
 	}
 	if f.Kind == "deadline" {
 		var c2 context.CancelFunc
-		ctx, c2 = context.WithTimeout(parent, time.Duration(f.K)*time.Millisecond)
+		if f.Cause {
+			ctx, c2 = context.WithTimeoutCause(parent, time.Duration(f.K)*time.Millisecond, errCallerCause)
+		} else {
+			ctx, c2 = context.WithTimeout(parent, time.Duration(f.K)*time.Millisecond)
+		}
 		defer c2()
 	}
 	if f.Kind == "cancel" && f.Gate == "before-do" {
@@ -1071,6 +1085,10 @@ func runC10(c *Ctx) {
 					continue
 				}
 				fs = append(fs, fault{Kind: "cancel", Gate: g, Occ: occ})
+				if occ == 1 || occ == occs || c.Thorough {
+					fs = append(fs, fault{Kind: "cancel", Gate: g, Occ: occ, Cause: true})
+					fs = append(fs, fault{Kind: "cancel", Gate: g, Occ: occ, Cause: true, Sched: "recv-first"})
+				}
 				if strings.HasPrefix(g, "sender.") && (occ == 1 || c.Thorough) {
 					fs = append(fs, fault{Kind: "cancel", Gate: g, Occ: occ, Far: true})
 					fs = append(fs, fault{Kind: "cancel", Gate: g, Occ: occ, WFail: true})
@@ -1085,6 +1103,7 @@ func runC10(c *Ctx) {
 		for _, ms := range []int{1, 5, 20} {
 			fs = append(fs, fault{Kind: "deadline", K: ms})
 		}
+		fs = append(fs, fault{Kind: "deadline", K: 5, Cause: true}, fault{Kind: "deadline", K: 30, Cause: true})
 		for _, f := range fs {
 			o, err := runScenario(sp, f, rt)
 			if err != nil {
